@@ -75,47 +75,17 @@ Fixpoint out_of_cbor (l : list cbor) : option (list (bytes * cbor)) :=
   | _ => None
   end.
 
-Definition known_name (k : known_class) : String.string :=
-  match k with
-  | KLatin1Bytes => "latin1_byte_length"
-  | KFullDateYear => "fulldate_year_padding"
-  | KFullDateSigned => "fulldate_signed_year"
-  | KTDateRange => "tdate_utc_year_range"
-  | KTDateLeap => "tdate_leap_second"
-  | KTDateSeparator => "tdate_separator"
-  | KBiometricEmpty => "biometric_empty_type"
-  | KJurisdictionNull => "jurisdiction_null"
-  end.
-Definition known_why (k : known_class) : String.string :=
-  match k with
-  | KLatin1Bytes => "Latin-1 text of at most 150 characters rejected because its UTF-8 form exceeds 150 bytes"
-  | KFullDateYear => "full-date with year below 1000 printed without leading zeros"
-  | KFullDateSigned => "signed year accepted and rewritten instead of rejected"
-  | KTDateRange => "date-time whose UTC form is outside years 0000..9999 panics"
-  | KTDateLeap => "leap second accepted and rewritten to :59"
-  | KTDateSeparator => "date-time with a separator other than T, t, space accepted"
-  | KBiometricEmpty => "biometric_template_ with an empty type name emitted"
-  | KJurisdictionNull => "issuing_jurisdiction given as null is rejected although null means absent for optional fields"
-  end.
-Definition known_verdict (k : known_class) : cbor :=
-  CText (s19 "known:" ++ s19 (known_name k) ++ s19 ":" ++ s19 (known_why k)).
-
-(* verdict on an implementation observation `obs` for input (domain d, expected-encoding test e,
-   known class k, model observation m).  A known class only excuses a failure that is exactly
-   the modelled one. *)
-Definition verdict (tag : N) (den_ok dom_ok : bool) (k : option known_class) (same_as_model : bool) : cbor :=
-  let excuse (why : String.string) :=
-    match k with
-    | Some c => if same_as_model then known_verdict c else ctext why
-    | None => ctext why
-    end in
+(* verdict on an implementation observation: tag 0 = Ok (den_ok: the output is the prescribed
+   encoding), 1 = Err, 2 = panic; dom_ok: the input is in the domain.  There is no excused class:
+   the eight defect classes once recorded for C19 are fixed, any of them returning is a failure. *)
+Definition verdict (tag : N) (den_ok dom_ok : bool) : cbor :=
   if tag =? 0 then
     if den_ok then ctext "ok"
-    else if dom_ok then excuse "fail:accepted, but the output is not the prescribed encoding of the supplied values"
-    else excuse "fail:out-of-domain or incomplete record accepted"
+    else if dom_ok then ctext "fail:accepted, but the output is not the prescribed encoding of the supplied values"
+    else ctext "fail:out-of-domain or incomplete record accepted"
   else if tag =? 1 then
-    if dom_ok then excuse "fail:record in the domain rejected" else ctext "ok"
-  else excuse "fail:panic".
+    if dom_ok then ctext "fail:record in the domain rejected" else ctext "ok"
+  else ctext "fail:panic".
 
 (* table rows as CBOR, for the row-by-row cross-check against the running code *)
 Definition norm_code (k : norm_kind) : N := match k with NormNone => 0 | NormLower => 1 | NormUpper => 2 end.
@@ -156,21 +126,19 @@ Definition api_c19 (cmd : bytes) (args : list cbor) : option cbor :=
     | [CUInt nn; cj; CArray (CUInt tag :: rest) as obs] =>
       match ns_of nn, json_of_cbor cj with
       | Some n, Some j =>
-        let same := cbor_eqb obs (elements_obs (ns_elements b64_decode n j)) in
         match j with
         | JObj kvs =>
-          let k := known_record n kvs in
           let dom_ok := ns_dom b64_decode n kvs in
           if tag =? 0 then
             match rest with
             | [CArray l] =>
               match out_of_cbor l with
-              | Some out => Some (verdict 0 (ns_den b64_decode n kvs out) dom_ok k same)
+              | Some out => Some (verdict 0 (ns_den b64_decode n kvs out) dom_ok)
               | None => Some (ctext "fail:malformed observation")
               end
             | _ => Some (ctext "fail:malformed observation")
             end
-          else Some (verdict tag false dom_ok k same)
+          else Some (verdict tag false dom_ok)
         | _ => Some (if tag =? 1 then ctext "ok" else ctext "fail:a JSON value that is not an object was not rejected")
         end
       | _, _ => None
@@ -185,15 +153,13 @@ Definition api_c19 (cmd : bytes) (args : list cbor) : option cbor :=
         match class_of_name n ty with
         | None => Some (ctext "n/a:type without a value class")
         | Some c =>
-          let same := cbor_eqb obs (leaf_obs (name_leaf b64_decode top_fuel n ty j)) in
-          let k := known spec_fuel n c j in
           let dom_ok := dom b64_decode spec_fuel n [] c j in
           if tag =? 0 then
             match rest with
-            | [v] => Some (verdict 0 (den b64_decode spec_fuel n [] c j v) dom_ok k same)
+            | [v] => Some (verdict 0 (den b64_decode spec_fuel n [] c j v) dom_ok)
             | _ => Some (ctext "fail:malformed observation")
             end
-          else Some (verdict tag false dom_ok k same)
+          else Some (verdict tag false dom_ok)
         end
       | _, _ => None
       end
